@@ -58,7 +58,6 @@ const (
 	mustReject   = "must-reject"
 	uriCaseFold  = "uri-nonascii-case-fold"
 	rtUnderscore = "roundtrip-quoted-underscore"
-	rtEmpty      = "roundtrip-empty-set-value"
 )
 
 // classifyAV classifies one attribute-value string of a formatted string:
